@@ -1,7 +1,8 @@
 (* C02 Instant-vector selection honours lookback, staleness, offset and @.
-   Property theorems only; proofs in SelectProofs.v, Shard.v, SelectorProofs.v, Grid.v. *)
+   Property theorems only; proofs in SelectProofs.v, Shard.v, SelectorProofs.v, Grid.v, Lookback.v. *)
 From Coq Require Import List ZArith NArith Bool Lia.
 From Verif Require Import Base Grid Select SelectProofs Shard SelectorProofs Generated.
+From Verif Require Lookback.
 Import ListNotations.
 Open Scope Z_scope.
 
@@ -50,6 +51,24 @@ Print Assumptions C02_at_pin.
 Theorem C02_steps_batch_pos : (0 < steps_batch)%nat.
 Proof. vm_compute. repeat constructor. Qed.
 Print Assumptions C02_steps_batch_pos.
+
+(* The lookback delta the selection is made with: the one the query's options
+   set, and the engine's (the configured one, or five minutes when none is
+   configured) when the query has no options or options that leave it unset. It
+   is positive for every non-negative configuration. *)
+Theorem C02_query_lookback_rule : forall configured opts,
+  Lookback.query_lookback configured opts =
+  match opts with
+  | Some l => if 0 <? l then l else Lookback.engine_lookback configured
+  | None => Lookback.engine_lookback configured
+  end.
+Proof. exact Lookback.query_lookback_rule. Qed.
+Print Assumptions C02_query_lookback_rule.
+
+Theorem C02_query_lookback_positive : forall configured opts,
+  0 <= configured -> 0 < Lookback.query_lookback configured opts.
+Proof. exact Lookback.query_lookback_pos. Qed.
+Print Assumptions C02_query_lookback_positive.
 
 (* non-vacuity: a layout with a stale marker, an old sample and a fresh one *)
 Example C02_example :
